@@ -2121,3 +2121,377 @@ Qed.
 Print Assumptions C01_entities_converge.
 Print Assumptions C01_host_matches_spec.
 Print Assumptions C01_entities_converge_no_leave.
+
+(* ================================================================================================
+   8. Traffic (C09): messages per operation, hop count <= 2, self-quenching
+   ================================================================================================ *)
+
+(* number of messages enqueued by event e in state s *)
+Definition enq (s : astate) (e : event) : N :=
+  match e with
+  | EvSpawn p _ | EvDespawn p _ => if decide (p = 0) then N.of_nat (length (conn s)) else 1
+  | EvDeliver a b =>
+      match get_link s a b with
+      | m :: _ =>
+          if decide (b = 0) then
+            match m with
+            | ESpawn _ | EDelete _ => N.of_nat (length (others s a))
+            | EReqInit => N.of_nat (length (get_ents s 0)) + 1
+            | EFinInit => 0
+            end
+          else 0
+      | [] => 0
+      end
+  | EvConnect _ => 1
+  | EvLeave _ => 0
+  end.
+
+Lemma sent_announce s p m :
+  sent (announce s p m) = sent s + if decide (p = 0) then N.of_nat (length (conn s)) else 1.
+Proof.
+  unfold announce. destruct (decide (p = 0)).
+  - by destruct (bcast_fields s (conn s) m) as (_ & _ & _ & _ & ->).
+  - done.
+Qed.
+
+Lemma step_sent s e s' : step s e = Some s' -> sent s' = sent s + enq s e.
+Proof.
+  intros Hstep. destruct e as [p u|p u|a b|c|c]; simpl in *.
+  - destruct (peer_on s p && bool_decide (u ∉ used s)); [|done]. injection Hstep as <-.
+    by rewrite sent_announce.
+  - destruct (peer_on s p && bool_decide (u ∈ get_ents s p)); [|done]. injection Hstep as <-.
+    by rewrite sent_announce.
+  - destruct (get_link s a b) as [|m q]; [done|].
+    destruct (decide (b = 0)) as [->|Hb].
+    + destruct (decide (a = 0)); [done|]. injection Hstep as <-.
+      destruct m as [u|u| |]; simpl.
+      * by destruct (bcast_fields (set_ents (set_link s a 0 q) 0 (u :: get_ents (set_link s a 0 q) 0))
+                      (others (set_link s a 0 q) a) (ESpawn u)) as (_ & _ & _ & _ & ->).
+      * by destruct (bcast_fields (set_ents (set_link s a 0 q) 0 (remove1 u (get_ents (set_link s a 0 q) 0)))
+                      (others (set_link s a 0 q) a) (EDelete u)) as (_ & _ & _ & _ & ->).
+      * rewrite app_length, fmap_length. simpl.
+        change (get_ents (set_link s a 0 q) 0) with (get_ents s 0). lia.
+      * lia.
+    + destruct (decide (a = 0)); [|done]. injection Hstep as <-.
+      destruct m as [u|u| |]; simpl; try lia.
+      destruct (bool_decide (u ∈ get_ents (set_link s a b q) b)); simpl; lia.
+  - destruct (bool_decide (c <> 0) && bool_decide (c ∉ conn s)); [|done]. by injection Hstep as <-.
+  - destruct (bool_decide (c ∈ conn s)); [|done]. injection Hstep as <-. simpl. lia.
+Qed.
+
+Lemma others_length s c :
+  NoDup (conn s) -> c ∈ conn s -> S (length (others s c)) = length (conn s).
+Proof.
+  unfold others. induction (conn s) as [|x l IH]; intros Hnd Hin; [by apply elem_of_nil in Hin|].
+  apply NoDup_cons in Hnd as [Hx Hnd]. rewrite filter_cons. destruct (decide (x = c)) as [->|Hne].
+  - rewrite decide_False by (intros Hn; by apply Hn). f_equal.
+    clear IH Hin Hnd. induction l as [|y l IH]; [done|]. rewrite filter_cons.
+    rewrite decide_True by (intros ->; apply Hx, elem_of_list_here). simpl. f_equal.
+    apply IH. intros Hin. apply Hx. by apply elem_of_list_further.
+  - rewrite decide_True by done. simpl. f_equal. apply IH; [done|].
+    apply elem_of_cons in Hin as [->|Hin]; done.
+Qed.
+
+Lemma others_length_le s c : (length (others s c) <= length (conn s))%nat.
+Proof. unfold others. apply filter_length. Qed.
+
+(* (1) one operation: at most |conn| messages are enqueued by the operation itself *)
+Theorem messages_per_operation s e s' :
+  sinv s -> is_op e = true -> step s e = Some s' ->
+  sent s' <= sent s + N.of_nat (length (conn s)).
+Proof.
+  intros Hinv Hop Hstep. rewrite (step_sent _ _ _ Hstep).
+  assert (Hon : forall p, peer_on s p = true -> p <> 0 -> 1 <= N.of_nat (length (conn s))).
+  { intros p [->|Hin]%peer_on_spec Hp; [done|]. destruct (conn s); [by apply elem_of_nil in Hin|].
+    simpl. lia. }
+  destruct e as [p u|p u|a b|c|c]; try done; simpl in *.
+  - destruct (peer_on s p) eqn:Hp; [|done]. clear Hstep. case_decide; [lia|]. pose proof (Hon p Hp) as Hon1. lia.
+  - destruct (peer_on s p) eqn:Hp; [|done]. clear Hstep. case_decide; [lia|]. pose proof (Hon p Hp) as Hon1. lia.
+Qed.
+
+(* (2) the host repeats an entity message of c to the |conn| - 1 other clients, exactly *)
+Theorem relay_cost s c s' m q :
+  sinv s -> step s (EvDeliver c 0) = Some s' -> get_link s c 0 = m :: q ->
+  (m = EReqInit -> sent s' = sent s + N.of_nat (length (get_ents s 0)) + 1) /\
+  (m = EFinInit -> sent s' = sent s) /\
+  ((exists u, m = ESpawn u \/ m = EDelete u) -> sent s' + 1 = sent s + N.of_nat (length (conn s))).
+Proof.
+  intros Hinv Hstep Hhd. rewrite (step_sent _ _ _ Hstep). simpl. rewrite Hhd.
+  rewrite ?decide_True by done.
+  assert (Hc0 : c <> 0).
+  { intros ->. simpl in Hstep. by rewrite Hhd in Hstep. }
+  assert (Hcc : c ∈ conn s) by (apply link_nonempty_conn; [done|done|by rewrite Hhd]).
+  pose proof (others_length s c (s_nd_conn _ Hinv) Hcc) as Hlen.
+  split; [intros ->; lia|]. split; [intros ->; lia|].
+  intros [u [-> | ->]]; lia.
+Qed.
+
+(* (3) clients never relay: handling a message at a client enqueues nothing anywhere *)
+Theorem client_never_relays s c s' :
+  sinv s -> step s (EvDeliver 0 c) = Some s' ->
+  sent s' = sent s /\
+  forall a b, get_link s' a b = if decide ((a, b) = (0, c)) then tail (get_link s 0 c) else get_link s a b.
+Proof.
+  intros Hinv Hstep. split.
+  - rewrite (step_sent _ _ _ Hstep). simpl. destruct (get_link s 0 c) as [|m q]; [lia|].
+    destruct (decide (c = 0)) as [->|Hc0]; [|lia].
+    simpl in Hstep. rewrite (link00 _ Hinv) in Hstep. done.
+  - assert (A : astep s s' (EvDeliver 0 c)) by (apply step_astep; [apply Hinv|done]).
+    inversion A as [| |c1 u q Hc0 Hhd HE HL (Hc & Hs & Hu)
+                    |c1 u q Hc0 Hhd HE HL (Hc & Hs & Hu)
+                    |c1 q Hc0 Hhd HE HL Hc Hs Hu
+                    |c1 q Hc0 Hhd HE HL (Hc & Hs & Hu)
+                    |c1 m q Hc0 Hhd HE HL (Hc & Hs & Hu)| |]; subst; try done.
+    intros a b. rewrite HL, Hhd. done.
+Qed.
+
+(* (4) relays are never relayed again: what the host enqueues goes to links (0,_) only, and those
+   are consumed by clients, which (3) enqueue nothing.  Hop count <= 2. *)
+Theorem host_enqueues_downwards_only s c s' a b :
+  sinv s -> step s (EvDeliver c 0) = Some s' -> a <> 0 ->
+  get_link s' a b = if decide ((a, b) = (c, 0)) then tail (get_link s c 0) else get_link s a b.
+Proof.
+  intros Hinv Hstep Ha.
+  assert (A : astep s s' (EvDeliver c 0)) by (apply step_astep; [apply Hinv|done]).
+  inversion A as [| |c1 u q Hc0 Hhd HE HL (Hc & Hs & Hu)
+                  |c1 u q Hc0 Hhd HE HL (Hc & Hs & Hu)
+                  |c1 q Hc0 Hhd HE HL Hc Hs Hu
+                  |c1 q Hc0 Hhd HE HL (Hc & Hs & Hu)
+                  |c1 m q Hc0 Hhd HE HL (Hc & Hs & Hu)| |]; subst; try done;
+    rewrite HL, Hhd; simpl; repeat case_decide; simplify_eq; try done; exfalso; tauto.
+Qed.
+
+(* (5) self-quenching: in a quiescent state no delivery is enabled; the only enabled events are new
+   operations, connections and departures.  Nothing is ever sent spontaneously. *)
+Theorem self_quenching s a b : quiescent s -> step s (EvDeliver a b) = None.
+Proof. intros Hq. simpl. by rewrite Hq. Qed.
+
+Theorem quiescent_enabled_events s e s' :
+  quiescent s -> step s e = Some s' ->
+  is_op e = true \/ (exists c, e = EvConnect c) \/ (exists c, e = EvLeave c).
+Proof.
+  intros Hq Hstep. destruct e as [p u|p u|a b|c|c]; eauto.
+  by rewrite self_quenching in Hstep.
+Qed.
+
+(* ---- the global bound ---- *)
+
+Fixpoint cnt (q : list emsg) : N :=
+  match q with
+  | [] => 0
+  | m :: q' => (match m with ESpawn _ | EDelete _ => 1 | _ => 0 end) + cnt q'
+  end.
+
+Lemma cnt_app q1 q2 : cnt (q1 ++ q2) = cnt q1 + cnt q2.
+Proof. induction q1 as [|m q1 IH]; simpl; [done|]. rewrite IH. lia. Qed.
+
+Definition sumf (f : peer -> N) (l : list peer) : N := foldr (fun c acc => f c + acc) 0 l.
+
+Lemma sumf_ext f g l : (forall c, c ∈ l -> f c = g c) -> sumf f l = sumf g l.
+Proof.
+  induction l as [|x l IH]; intros Hfg; simpl; [done|].
+  rewrite (Hfg x) by apply elem_of_list_here. rewrite IH; [done|].
+  intros c Hc. apply Hfg. by apply elem_of_list_further.
+Qed.
+
+Lemma sumf_upd f g l c :
+  NoDup l -> c ∈ l -> (forall x, x ∈ l -> x <> c -> g x = f x) ->
+  sumf g l + f c = sumf f l + g c.
+Proof.
+  induction l as [|x l IH]; intros Hnd Hin Hfg; [by apply elem_of_nil in Hin|].
+  apply NoDup_cons in Hnd as [Hx Hnd]. simpl. destruct (decide (x = c)) as [->|Hne].
+  - rewrite (sumf_ext g f l); [lia|]. intros y Hy. apply Hfg; [by apply elem_of_list_further|].
+    intros ->. done.
+  - rewrite (Hfg x) by (done || apply elem_of_list_here).
+    apply elem_of_cons in Hin as [->|Hin]; [done|].
+    specialize (IH Hnd Hin). rewrite <- !N.add_assoc. rewrite IH; [lia|].
+    intros y Hy. apply Hfg. by apply elem_of_list_further.
+Qed.
+
+Lemma sumf_filter_le f (P : peer -> Prop) `{forall x, Decision (P x)} l :
+  sumf f (filter P l) <= sumf f l.
+Proof.
+  induction l as [|x l IH]; simpl; [done|]. rewrite filter_cons.
+  destruct (decide (P x)); simpl; lia.
+Qed.
+
+(* entity messages still travelling towards the host: each will be repeated once *)
+Definition pendU (s : astate) : N := sumf (fun c => cnt (get_link s c 0)) (conn s).
+
+Definition charge (s : astate) (e : event) (M : N) : N :=
+  M * (if is_op e then 1 else 0) + foldr N.add 0 (snapshot_at s e) + (if is_connect e then 1 else 0).
+
+Lemma traffic_step s e s' M :
+  sinv s -> step s e = Some s' -> N.of_nat (length (conn s)) <= M ->
+  sent s' + (M - 1) * pendU s' <= sent s + (M - 1) * pendU s + charge s e M.
+Proof.
+  intros Hinv Hstep HM. rewrite (step_sent _ _ _ Hstep). unfold charge.
+  pose proof (s_host _ Hinv) as H0. pose proof (s_nd_conn _ Hinv) as Hnd.
+  step_cases Hinv Hstep.
+  - (* spawn *) simpl. destruct (decide (p = 0)) as [->|Hp]; rewrite ?decide_True, ?decide_False by done.
+    + assert (Hpu : pendU s' = pendU s).
+      { unfold pendU. rewrite Hc. apply sumf_ext. intros c Hc'. rewrite HL.
+        rewrite decide_True by done. rewrite decide_False; [done|]. intros [-> _]. done. }
+      rewrite Hpu. lia.
+    + assert (Hpc : p ∈ conn s) by (by destruct Hon).
+      assert (Hpu : pendU s' = pendU s + 1).
+      { unfold pendU. rewrite Hc.
+        pose proof (sumf_upd (fun c => cnt (get_link s c 0)) (fun c => cnt (get_link s' c 0))
+                      (conn s) p Hnd Hpc) as Hs'.
+        assert (Hside : forall x, x ∈ conn s -> x <> p -> cnt (get_link s' x 0) = cnt (get_link s x 0)).
+        { intros x _ Hx. rewrite HL. rewrite decide_False by done. rewrite decide_False; [done|].
+          intros [= ->]. done. }
+        specialize (Hs' Hside). simpl in Hs'.
+        assert (Hgp : cnt (get_link s' p 0) = cnt (get_link s p 0) + 1).
+        { rewrite HL. rewrite decide_False by done. rewrite decide_True by done.
+          rewrite cnt_app. simpl. lia. }
+        lia. }
+      rewrite Hpu. assert (1 <= M). { destruct (conn s); [by apply elem_of_nil in Hpc|]. simpl in HM. lia. }
+      rewrite N.mul_add_distr_l. lia.
+  - (* despawn *) simpl. destruct (decide (p = 0)) as [->|Hp]; rewrite ?decide_True, ?decide_False by done.
+    + assert (Hpu : pendU s' = pendU s).
+      { unfold pendU. rewrite Hc. apply sumf_ext. intros c Hc'. rewrite HL.
+        rewrite decide_True by done. rewrite decide_False; [done|]. intros [-> _]. done. }
+      rewrite Hpu. lia.
+    + assert (Hpc : p ∈ conn s) by (by destruct Hon).
+      assert (Hpu : pendU s' = pendU s + 1).
+      { unfold pendU. rewrite Hc.
+        pose proof (sumf_upd (fun c => cnt (get_link s c 0)) (fun c => cnt (get_link s' c 0))
+                      (conn s) p Hnd Hpc) as Hs'.
+        assert (Hside : forall x, x ∈ conn s -> x <> p -> cnt (get_link s' x 0) = cnt (get_link s x 0)).
+        { intros x _ Hx. rewrite HL. rewrite decide_False by done. rewrite decide_False; [done|].
+          intros [= ->]. done. }
+        specialize (Hs' Hside). simpl in Hs'.
+        assert (Hgp : cnt (get_link s' p 0) = cnt (get_link s p 0) + 1).
+        { rewrite HL. rewrite decide_False by done. rewrite decide_True by done.
+          rewrite cnt_app. simpl. lia. }
+        lia. }
+      rewrite Hpu. assert (1 <= M). { destruct (conn s); [by apply elem_of_nil in Hpc|]. simpl in HM. lia. }
+      rewrite N.mul_add_distr_l. lia.
+  - (* host receives ESpawn *)
+    assert (Hcc : c ∈ conn s) by (apply link_nonempty_conn; [done|done|by rewrite Hhd]).
+    pose proof (others_length s c Hnd Hcc) as Hlen.
+    assert (Hpu : pendU s' + 1 = pendU s).
+    { unfold pendU. rewrite Hc.
+      pose proof (sumf_upd (fun c => cnt (get_link s c 0)) (fun c => cnt (get_link s' c 0))
+                    (conn s) c Hnd Hcc) as Hs'.
+      assert (Hside : forall x, x ∈ conn s -> x <> c -> cnt (get_link s' x 0) = cnt (get_link s x 0)).
+      { intros x Hx Hne. rewrite HL. rewrite decide_False by (intros [= ->]; done).
+        rewrite decide_False; [done|]. intros [-> _]. done. }
+      specialize (Hs' Hside). simpl in Hs'. rewrite Hhd in Hs'. simpl in Hs'.
+      assert (Hq : cnt (get_link s' c 0) = cnt q).
+      { rewrite HL. by rewrite decide_True. }
+      lia. }
+    simpl. rewrite Hhd. simpl. rewrite <- Hpu. rewrite N.mul_add_distr_l. lia.
+  - (* host receives EDelete *)
+    assert (Hcc : c ∈ conn s) by (apply link_nonempty_conn; [done|done|by rewrite Hhd]).
+    pose proof (others_length s c Hnd Hcc) as Hlen.
+    assert (Hpu : pendU s' + 1 = pendU s).
+    { unfold pendU. rewrite Hc.
+      pose proof (sumf_upd (fun c => cnt (get_link s c 0)) (fun c => cnt (get_link s' c 0))
+                    (conn s) c Hnd Hcc) as Hs'.
+      assert (Hside : forall x, x ∈ conn s -> x <> c -> cnt (get_link s' x 0) = cnt (get_link s x 0)).
+      { intros x Hx Hne. rewrite HL. rewrite decide_False by (intros [= ->]; done).
+        rewrite decide_False; [done|]. intros [-> _]. done. }
+      specialize (Hs' Hside). simpl in Hs'. rewrite Hhd in Hs'. simpl in Hs'.
+      assert (Hq : cnt (get_link s' c 0) = cnt q).
+      { rewrite HL. by rewrite decide_True. }
+      lia. }
+    simpl. rewrite Hhd. simpl. rewrite <- Hpu. rewrite N.mul_add_distr_l. lia.
+  - (* host receives EReqInit *)
+    assert (Hpu : pendU s' = pendU s).
+    { unfold pendU. rewrite Hc. apply sumf_ext. intros x Hx. rewrite HL.
+      destruct (decide (x = c)) as [->|Hne].
+      - rewrite decide_True by done. by rewrite Hhd.
+      - rewrite decide_False by (intros [= ->]; done). rewrite decide_False; [done|].
+        intros [= -> ?]. done. }
+    simpl. rewrite Hhd. simpl. rewrite decide_False by done. rewrite Hpu. simpl. lia.
+  - (* host receives EFinInit *)
+    assert (Hpu : pendU s' = pendU s).
+    { unfold pendU. rewrite Hc. apply sumf_ext. intros x Hx. rewrite HL.
+      destruct (decide (x = c)) as [->|Hne].
+      - rewrite decide_True by done. by rewrite Hhd.
+      - rewrite decide_False; [done|]. intros [= ->]. done. }
+    simpl. rewrite Hhd. simpl. rewrite Hpu. lia.
+  - (* client *)
+    assert (Hpu : pendU s' = pendU s).
+    { unfold pendU. rewrite Hc. apply sumf_ext. intros x Hx. rewrite HL.
+      rewrite decide_False; [done|]. intros [= -> ?]. done. }
+    simpl. rewrite Hhd. rewrite decide_False by done. rewrite Hpu.
+    destruct m; simpl; lia.
+  - (* connect *)
+    assert (Huc : get_link s c 0 = []).
+    { destruct (get_link s c 0) eqn:Heq; [done|]. exfalso. apply Hnc.
+      apply link_nonempty_conn; [done|done|]. by rewrite Heq. }
+    assert (Hpu : pendU s' = pendU s).
+    { unfold pendU. rewrite Hc. simpl. rewrite HL. rewrite decide_True by done. rewrite Huc. simpl.
+      apply sumf_ext. intros x Hx. rewrite HL. rewrite decide_False; [done|]. intros [= ->]. done. }
+    simpl. rewrite Hpu. lia.
+  - (* leave *)
+    assert (Hpu : pendU s' <= pendU s).
+    { unfold pendU. rewrite Hc.
+      rewrite (sumf_ext _ (fun c => cnt (get_link s c 0))).
+      - apply sumf_filter_le.
+      - intros x [Hne Hx]%elem_of_list_filter. rewrite HL. rewrite decide_False; [done|].
+        intros [[= -> ?]|[= ->]]; [|done]. by apply (conn_ne0 _ _ Hinv Hcc). }
+    simpl. apply (N.mul_le_mono_l _ _ (M - 1)) in Hpu. lia.
+Qed.
+
+Lemma foldr_add_app l1 l2 : foldr N.add 0 (l1 ++ l2) = foldr N.add 0 l1 + foldr N.add 0 l2.
+Proof. induction l1 as [|x l1 IH]; simpl; [done|]. rewrite IH. lia. Qed.
+
+Lemma traffic_run s tr s' M :
+  sinv s -> run s tr = Some s' -> max_conn s tr <= M ->
+  sent s' + (M - 1) * pendU s' <=
+  sent s + (M - 1) * pendU s + M * ops tr + foldr N.add 0 (collect snapshot_at s tr) + connects tr.
+Proof.
+  revert s. induction tr as [|e tr IH]; intros s Hinv Hrun HM.
+  - injection Hrun as <-. unfold ops, connects. simpl. lia.
+  - simpl in Hrun, HM. destruct (step s e) as [s1|] eqn:Hstep; [|done].
+    assert (HM0 : N.of_nat (length (conn s)) <= M) by lia.
+    assert (HM1 : max_conn s1 tr <= M) by lia.
+    pose proof (traffic_step _ _ _ _ Hinv Hstep HM0) as Hone.
+    pose proof (IH s1 (sinv_step _ _ _ Hinv Hstep) Hrun HM1) as Hrest.
+    unfold charge in Hone. unfold ops, connects in *. simpl. rewrite Hstep.
+    rewrite foldr_add_app. rewrite N.mul_add_distr_l. lia.
+Qed.
+
+(* C09 traffic bound: over a whole run, every operation (EvSpawn / EvDespawn) costs at most M
+   messages in total INCLUDING its relays, where M is the largest client table seen during the run;
+   the rest of the traffic is the snapshots (|ents 0| + 1 each) and one EReqInit per connection. *)
+Theorem traffic_bound tr s :
+  run init tr = Some s ->
+  sent s <= max_conn init tr * ops tr + snapshots tr + connects tr.
+Proof.
+  intros Hrun.
+  pose proof (traffic_run init tr s (max_conn init tr) sinv_init Hrun (N.le_refl _)) as Hb.
+  unfold snapshots. change (sent init) with 0 in Hb. change (pendU init) with 0 in Hb. lia.
+Qed.
+
+Example traffic_bound_on_ex_trace :
+  (sent <$> run init ex_trace, max_conn init ex_trace, ops ex_trace, snapshots ex_trace, connects ex_trace)
+  = (Some 17, 2, 6, 4, 2).
+Proof. vm_compute. reflexivity. Qed.
+
+(* non-vacuity of the main theorem: its hypotheses hold on the 3-peer example, and it yields the
+   agreement that the example computed *)
+Example C01_applies_to_ex_trace :
+  exists s, run init ex_trace = Some s /\ quiescent s /\ agree s /\
+            forall u, u ∈ get_ents s 0 <-> u ∈ spec_alive ex_trace.
+Proof.
+  destruct (run init ex_trace) as [s|] eqn:Hrun; [|by vm_compute in Hrun].
+  assert (Hq : quiescent s).
+  { apply quiescentb_spec. vm_compute in Hrun. injection Hrun as <-. vm_compute. reflexivity. }
+  exists s. split; [reflexivity|]. split; [exact Hq|].
+  assert (H11 : known_S11 ex_trace = false) by (vm_compute; reflexivity).
+  assert (H18 : known_S18 ex_trace = false) by (vm_compute; reflexivity).
+  assert (Hdr : dropped_uuids ex_trace = []) by (vm_compute; reflexivity).
+  destruct (C01_entities_converge ex_trace s Hrun H11 H18 Hq) as (Hag & Hspec & _).
+  split; [exact Hag|]. intros u. apply Hspec. rewrite Hdr. apply not_elem_of_nil.
+Qed.
+
+Print Assumptions messages_per_operation.
+Print Assumptions relay_cost.
+Print Assumptions client_never_relays.
+Print Assumptions host_enqueues_downwards_only.
+Print Assumptions traffic_bound.
